@@ -46,6 +46,8 @@ def cases(tier, rng):
         th.update(mc=mc, mb=mb, mt=mt)
         if scheme == "ZM-VFNS" and rng.random() < 0.5:
             th.update(kcThr=float(rng.uniform(0.7, 2.0)), kbThr=float(rng.uniform(0.7, 2.0)), ktThr=float(rng.uniform(0.7, 1.5)))
+            if th["kcThr"] * mc >= th["kbThr"] * mb:  # matching scales must stay ordered (the threshold table is searched by bisection)
+                th["kcThr"], th["kbThr"] = min(th["kcThr"], th["kbThr"]), max(th["kcThr"], th["kbThr"])
         ng = (int(rng.integers(4, 12)), int(rng.integers(3, 9)))
         xg = cards.grid(*ng, x_min=cards.logu(rng, 1e-5, 1e-2), kind=cards.pick(rng, ["mixed", "mixed", "log", "lin"]))
         deg = int(rng.integers(1, min(5, len(xg) - 1) + 1))
